@@ -545,6 +545,31 @@ static void run(void)
 {
 	int depth = (int)xp_param("depth", 3);
 	int seedstate = (int)xp_param("seedstate", 0);
+	if (xp_param("collide", 0)) {
+		/* colliding universe: two paths starting with 'a' and the method path that share the home bucket of "b" in the path index (the
+		 * rules 'startsWith a' and 'equals b' keep their meaning); removals then happen among displaced entries */
+		static char c0[16], c1[16], c3[16];
+		unsigned order = CONFIG_ELEMENT_TABLE_ORDER;
+		uint32_t home = path_bucket("b", order);
+		int found = 0;
+		for (int n = 0; n < 4000000 && found < 2; n++) {
+			char cand[16];
+			snprintf(cand, sizeof(cand), "a%d", n);
+			if (path_bucket(cand, order) == home) {
+				strcpy(found == 0 ? c0 : c1, cand);
+				found++;
+			}
+		}
+		for (int n = 0; n < 4000000; n++) {
+			snprintf(c3, sizeof(c3), "m%d", n);
+			if (path_bucket(c3, order) == home) {
+				break;
+			}
+		}
+		PATHS[0] = c0;
+		PATHS[1] = c1;
+		PATHS[3] = c3;
+	}
 	build_actions();
 	struct sim_opts o = {0};
 	acl = xp_param("acl", 0) != 0;
